@@ -714,6 +714,27 @@ func (g *G) figure() string {
 		b.WriteString("</figure>\n")
 		return b.String()
 	}
+	if g.P.Carriers > 0 && g.chance(8, "hiddennestedfig") {
+		// a figure nested in the figure, hidden itself or through a hidden wrapper, whose caption is the
+		// first <figcaption> below the outer figure: class A
+		g.push("ha")
+		cap := "<figcaption>" + g.words(g.intn(1, 6, "hnfw"))
+		if g.chance(50, "hnflink") {
+			cap += ` <a href="` + g.url("a") + `">` + g.words(1) + "</a>"
+		}
+		cap += "</figcaption>"
+		if g.chance(50, "hnfdirect") {
+			b.WriteString(g.hiddenOpen("figure") + strings.TrimSpace(g.img()) + cap + "</figure>")
+		} else {
+			b.WriteString(g.hiddenOpen("div") + "<figure>" + strings.TrimSpace(g.img()) + cap + "</figure></div>")
+		}
+		g.pop()
+		if g.chance(50, "hnfowncap") {
+			b.WriteString("<figcaption>" + g.words(g.intn(1, 8, "hnfoww")) + "</figcaption>")
+		}
+		b.WriteString("</figure>\n")
+		return b.String()
+	}
 	if g.P.Carriers > 0 && g.chance(8, "hiddencap") {
 		// the caption itself is hidden (with or without a link inside): class A
 		g.push("ha")
